@@ -190,11 +190,6 @@ def invRun (rows : List (Option Nat × Option Nat × Option Nat × Option Nat ×
     | .error _ => false
   "inv=" ++ boolStr (checkInv parent op1 op2) ++ " links=" ++ boolStr li
 
-/-- which repairs the working tree already has (probed by the check with the witnesses): "cur" or a "+"-joined subset of "sf", "mf", "bc" -/
-def modeFixed (m : String) : Bool := (m.splitOn "+").contains "sf"
-def memberFixed (m : String) : Bool := (m.splitOn "+").contains "mf"
-def boundsFixed (m : String) : Bool := (m.splitOn "+").contains "bc"
-
 def step (line : String) : String :=
   match fields line with
   | "inv" :: _ :: rows =>
@@ -216,24 +211,24 @@ def step (line : String) : String :=
       | (0, _) :: r => if wellNested 0 r then locRun items else "bad-op"
       | _ => "bad-op"
     | none => "bad-op"
-  | ["refs", _, f, h, m] =>
+  | ["refs", _, f, h] =>
     match fromHex f, fromHex h with
     | some f, some t =>
-      match importDump f t (modeFixed m) (memberFixed m) (boundsFixed m) with
+      match importDump f t with
       | .ok im => refsOut im
       | .error e => errStr e
     | _, _ => "bad-op"
-  | ["dump", _, f, h, m] =>
+  | ["dump", _, f, h] =>
     match fromHex f, fromHex h with
     | some f, some t =>
-      match importDump f t (modeFixed m) (memberFixed m) (boundsFixed m) with
+      match importDump f t with
       | .ok im => dumpOut im
       | .error e => errStr e
     | _, _ => "bad-op"
-  | ["events", _, f, h, m] =>      -- model-only: the setter calls and the declaration-map events of the import, with the theorem hypotheses
+  | ["events", _, f, h] =>      -- model-only: the setter calls and the declaration-map events of the import, with the theorem hypotheses
     match fromHex f, fromHex h with
     | some f, some t =>
-      match importDump f t (modeFixed m) (memberFixed m) (boundsFixed m) with
+      match importDump f t with
       | .ok im =>
         let evs := im.events
         let nref := (evs.filter fun e => match e with | .ref _ _ => true | _ => false).length
